@@ -41,7 +41,7 @@ SCENARIOS = {
     "gate2": dict(template="T_gate", base=["b:gaps", "b:east", "b:poor"], reports=REPORTS_GATE, slots=["s1", "s2"], ign=[True, False]),
     "refit": dict(template="T_refit", base=["b:good", "b:short", "b:poor"], reports=["r:wmonth:orig", "r:weast:orig"], slots=["s1"], ign=[True, False]),
     "store": dict(template="T_store", base=["b:good", "b:poor", "b:other"], reports=["r:wyear:orig", "r:wweek:orig", "r:wpart:absent"], slots=["s1", "s2"], ign=[True]),
-    "pure": dict(template="T_pure", base=["b:good"], reports=REPORTS_SPAN, slots=["s1"], ign=[False]),
+    "pure": dict(template="T_pure", base=["b:good", "b:short"], reports=REPORTS_SPAN, slots=["s1"], ign=[True]),
     "inter": dict(template="T_inter", base=["b:good", "b:other"], reports=["r:wyear:orig", "r:wweek:orig"], slots=["s1", "s2"], ign=[False]),
     "obs": dict(template="T_obs", base=["b:good"], reports=REPORTS_OBS, slots=["s1"], ign=[False]),
     "warm": dict(template="T_warm", base=["b:good", "b:other"], reports=["r:wmonth:orig"], slots=["s1", "s2"], ign=[False]),
@@ -81,7 +81,7 @@ def enumerate_histories(scen, fam, prof):
     with open(os.path.join(tlc.SPEC, cfg), "w") as f:
         f.write(cfg_text(scen, fam, prof, aggs))
     try:
-        res = tlc.run("LifeMC", cfg, tag, dump=True, coverage=True)
+        res = tlc.run("LifeMC", cfg, tag, dump=True, coverage=True, workers=4)
     finally:
         os.remove(os.path.join(tlc.SPEC, cfg))
     if res.violations:
@@ -101,6 +101,53 @@ def enumerate_histories(scen, fam, prof):
     stats = {"states": res.distinct, "transitions": res.generated, "depth": res.depth, "wall": res.wall,
              "coverage": {a: list(v) for a, v in res.coverage.items()}, "histories": len(maximal), "aggs": aggs}
     return maximal, stats
+
+
+def features(h):
+    """what a history exercises: (fitted baseline x predicted report) pairs, operation kinds, consecutive predict pairs"""
+    f = set()
+    fitted = {}
+    lastp = None
+    for a in h:
+        op = a["op"]
+        f.add(("op", op))
+        if op == "fit":
+            fitted[a["s"]] = a["d"]
+            f.add(("fit", a["d"], a["ign"]))
+        elif op == "predict":
+            f.add(("predict", fitted.get(a["s"], "-"), a["d"]))
+            if lastp is not None:
+                f.add(("seq", lastp, a["d"]))
+            lastp = a["d"]
+        elif op == "sweep":
+            f.add(("sweep", fitted.get(a["s"], "-")))
+        elif op == "load":
+            fitted[a["s"]] = "loaded"
+    return f
+
+
+def pick_cover(hists, n, r):
+    """n histories chosen greedily to cover as many distinct features as possible (ties broken by the seeded rng)"""
+    if n >= len(hists):
+        return list(hists)
+    pool = list(hists)
+    r.shuffle(pool)
+    feats = [features(h) for h in pool]
+    covered = set()
+    chosen = []
+    used = set()
+    for _ in range(n):
+        best, gain = None, -1
+        for k, f in enumerate(feats):
+            if k in used:
+                continue
+            g = len(f - covered)
+            if g > gain:
+                best, gain = k, g
+        used.add(best)
+        covered |= feats[best]
+        chosen.append(pool[best])
+    return chosen
 
 
 def expand(hist, scen, fam, aggs, salt, remote_restart, prof=""):
@@ -207,13 +254,15 @@ def run_property(prop, tier, scen_list, per_scen, assumptions, rule, extra_jobs=
     jobs = []
     mstats = {}
     tid = 0
-    for scen, fams in scen_list:
-        for fam, prof in fams:
-            hists, st = enumerate_histories(scen, fam, prof)
+    combos = [(scen, fam, prof) for scen, fams in scen_list for fam, prof in fams]
+    from concurrent.futures import ThreadPoolExecutor
+    with ThreadPoolExecutor(max_workers=4) as ex:          # the TLC runs are independent JVMs
+        enumerated = list(ex.map(lambda c: enumerate_histories(*c), combos))
+    for (scen, fam, prof), (hists, st) in zip(combos, enumerated):
             mstats["%s/%s/%s" % (scen, fam, prof)] = st
             r = common.rng("pick", prop, scen, fam, prof)
             n = per_scen if per_scen is not None else len(hists)
-            chosen = hists if n >= len(hists) else r.sample(hists, n)
+            chosen = pick_cover(hists, n, r)
             for k, h in enumerate(chosen):
                 tid += 1
                 remote = (tier == "thorough") or (k % 4 == 0)
